@@ -94,8 +94,8 @@ def mk(pid, runs):
                   assumptions=CLIENT_ASSUMPTIONS, trusted=COMMON_TRUSTED))
 
 
-mk('C12', [Run('client', quick=12000, thorough=80000, seeds_thorough=8)])
-mk('C20', [Run('client', quick=12000, thorough=80000, seeds_thorough=8)])
+mk('C12', [Run('client', quick=30000, thorough=120000, seeds_thorough=8)])
+mk('C20', [Run('client', quick=30000, thorough=120000, seeds_thorough=8)])
 
 
 # C02 covers both roles: broker runs (props_broker) and client runs
@@ -107,7 +107,7 @@ if _c02 is not None:
     # (C02_pub2in_is_ackqueue + C13_refines): the ack-queue correspondence is part of this property's tie
     from .props import ackq_oracle, ackq_nontrivial
     _c02.cores = ['broker', 'client', 'ackq']
-    _c02.runs = list(_c02.runs) + [Run('client', quick=8000, thorough=60000, seeds_thorough=6),
+    _c02.runs = list(_c02.runs) + [Run('client', quick=20000, thorough=100000, seeds_thorough=6),
                                    Run('ackq', quick=40000, thorough=300000, seeds_thorough=4)]
     _c02.oracle = by_core({'broker': _pb.broker_oracle, 'client': client_oracle, 'ackq': ackq_oracle})
     _c02.nontrivial = by_core({'broker': _pb.broker_nontrivial, 'client': client_nontrivial, 'ackq': ackq_nontrivial})
